@@ -136,7 +136,11 @@ def classify(mod, rec):
         if r is not None:
             oracle = {"ok": r[0], "why": r[1]}
     nr = getattr(mod, "normalize_result", None)
-    if nr is not None:
+    npair = getattr(mod, "normalize_pair", None)
+    if npair is not None:
+        a, b = npair(rec["case"], impl, model)
+        eq = C.same(a, b)
+    elif nr is not None:
         eq = C.same(nr(rec["case"], model), nr(rec["case"], impl))
     else:
         eq = C.same(model, impl)
